@@ -49,7 +49,7 @@ PROP = {'drive': ['Conc'],
         'tier, stream conc.race; positive control conc.racecontrol shows the detector reports a hash-invisible '
         'write) - it is not and cannot be a Lean theorem here',
         'the link "each listed Go operation is a confined operation of the model" is established by observation '
-        '(deep hash before/after, stream conc.pure, 22 operations x 19 fonts) and by the syntactic inventories, '
+        '(deep hash before/after, stream conc.pure, 23 operations x ~50 fonts incl. synthetic layout tables with every subtable type, irregular name lists, raw tables sharing one image) and by the syntactic inventories, '
         'not by a proof about the Go code; writes through local aliases of shared objects (x := f.Glyphs[i]; '
         'x.Name = ...) are invisible to the syntactic inventory and are covered by the hash/race streams only',
         'unexported package-level tables (post.macRoman, cff standard strings, mac encoding, header.ttTableOrder) '
@@ -59,6 +59,12 @@ PROP = {'drive': ['Conc'],
         '(documented there); this is caller-owned input, not font state, and is outside the property',
     ],
     'modelled_not_verified': [
+        'completeness of the snapshot is itself checked on every run (V stream conc.selftest: a planted write into '
+        'the first/last/first-spare-capacity element of every slice and into every map of the font graph must '
+        'change the hash; ~1100 sites on the synthetic all-subtable fonts); Subset is implemented by the library '
+        'only for GSUB 1.1/4.1 and GPOS 2.1 (fonts cffsub/sttfsub), Explain* not for GSUB 8.1/GPOS 5/6, Write not '
+        'for GPOS 5.1: on the other synthetic fonts these operations panic "not implemented" (same outcome '
+        'sequentially and in parallel, font unchanged)',
         'slice aliasing and capacity: the Lean models of header.Write (C03) and of the listed operations treat '
         'byte slices as lists, so a write into the spare capacity of a shared slice (append(body, pad...)) is '
         'outside what the theorems speak about; it is covered by the D predicate "capacity snapshot unchanged": '
